@@ -178,7 +178,9 @@ func (se *SignalEnum) modifyValueIndex(value *SignalEnumValue, newIndex int) {
 	// growing has been checked by verifyValueIndex and shrinking cannot fail,
 	// because the size of an enum is always positive
 	if err := se.modifySize(se.sizeFromMaxIndex(newMaxIndex) - se.GetSize()); err != nil {
-		panic(err)
+		// errorf consumes the failing signal recorded by modifySize:
+		// it must not stay pending in the enum after the panic
+		panic(se.errorf(err))
 	}
 
 	se.maxIndex = newMaxIndex
